@@ -21,6 +21,8 @@ import z3
 from . import theory
 from .source import ClassInfo, FunctionInfo, ModuleInfo, SourceIndex
 from .types import TypeParser
+from . import containers   # containers
+from .containers import SymKey, SymMap, SymSet   # containers
 from .values import (BoundBuiltin, ClassV, EnumName, EnumV, ExcV, ExtV, FlagV, FuncV, InterpError,
                      LambdaV, Lazy, ModV, Opaque, SObj, SymFloat, Unsupported, as_int,
                      as_z3bool, as_z3int, as_z3real, is_boollike, is_fraclike, is_intlike,
@@ -158,6 +160,7 @@ class Path:
         self.modular: set = set()
         self.modular_calls: dict = {}
         self.merge_inner: list | None = None
+        self.loop_guard = None      # containers: write check while a loop body is verified by invariant
 
     # ------------------------------------------------------------------ pc
     def all_pc(self):
@@ -254,6 +257,8 @@ class Path:
 
     # --------------------------------------------------------------- merge
     def write(self, container: dict, key, value):
+        if self.loop_guard is not None:
+            containers.check_write(self, container, key)   # containers
         if self.txns:
             cid = id(container)
             if not any(cid in t.fresh for t in self.txns):
@@ -262,6 +267,9 @@ class Path:
 
     def new_dict(self, d: dict):
         """register a dict (frame locals / object fields) created during a merge attempt"""
+        if self.loop_guard is not None:   # containers
+            self.loop_guard['fresh'].add(id(d))
+            self.loop_guard['keep'].append(d)
         if self.txns:
             self.txns[-1].fresh.add(id(d))
             self.txns[-1].keep.append(d)
@@ -394,6 +402,8 @@ class Path:
             return a
         if isinstance(a, Opaque) and isinstance(b, Opaque):
             return a
+        if isinstance(a, SymKey) and isinstance(b, SymKey) and a.kname == b.kname:   # containers
+            return containers.ite_key(cond, a, b)
         raise MergeAbort()
 
     # --------------------------------------------------------------- force
@@ -458,6 +468,8 @@ class Path:
             b = z3.Int(name + '#bits')
             self.assume(z3.And(b >= 0, b < (1 << 64)), fact=True)
             return SymFloat(b)
+        if k in ('key', 'map', 'set', 'kseq'):   # containers
+            return containers.fresh(self, typ, name)
         if k == 'opaque':
             return Opaque(f'{name}:{typ[1]}')
         if k == 'any':
@@ -713,6 +725,8 @@ class Path:
             if hk in v:
                 return v[hk]
             raise SymRaise(mk_exc('KeyError'))
+        if isinstance(v, SymMap):   # containers
+            return containers.map_getitem(self, v, k)
         if isinstance(v, SObj):
             return self.call_method(v, '__getitem__', [k], {})
         if isinstance(v, (ExtV, ClassV)):
@@ -833,6 +847,8 @@ class Path:
         # object operands -> dunder dispatch
         if isinstance(a, SObj) or isinstance(b, SObj):
             return self.binop_obj(op, a, b)
+        if isinstance(a, SymSet) or isinstance(b, SymSet):   # containers
+            return containers.set_binop(self, op, a, b)
         if isinstance(a, FlagV) and isinstance(b, FlagV):
             if op is ast.BitOr:
                 return FlagV(a.cls, a.bits | b.bits)
@@ -1132,6 +1148,8 @@ class Path:
     def identical(self, a, b):
         if a is None or b is None:
             return a is None and b is None
+        if isinstance(a, SymKey) or isinstance(b, SymKey):   # containers
+            return containers.key_identical(a, b)
         if isinstance(a, SObj) or isinstance(b, SObj):
             return a is b
         if is_boollike(a) and is_boollike(b):
@@ -1151,6 +1169,8 @@ class Path:
     def equal(self, a, b):
         if a is None or b is None:
             return a is None and b is None
+        if isinstance(a, SymKey) or isinstance(b, SymKey):   # containers
+            return containers.key_equal(a, b)
         if isinstance(a, SObj) or isinstance(b, SObj):
             NI = ExtV('builtins.NotImplemented')
             if isinstance(a, SObj):
@@ -1223,6 +1243,8 @@ class Path:
         return False
 
     def contains(self, container, item):
+        if isinstance(container, (SymMap, SymSet)):   # containers
+            return containers.contains(self, container, item)
         if isinstance(container, (tuple, list)):
             rs = [self.equal(x, item) for x in container]
             if any(r is True for r in rs):
@@ -1340,6 +1362,8 @@ class Path:
             if attr in ('numerator', 'denominator'):
                 return self.ex.frac_part(self, v, attr)
             return BoundBuiltin(f'Fraction.{attr}', v)
+        if isinstance(v, containers.SYM):   # containers
+            return BoundBuiltin(containers.bound_name(v, attr), v)
         if isinstance(v, (list, dict, set, tuple, str, float)):
             return BoundBuiltin(f'{type(v).__name__}.{attr}', v)
         if isinstance(v, SymFloat):
@@ -1597,6 +1621,8 @@ class Path:
 
     def ex_Assign(self, st, fr):
         v = self.ev(st.value, fr)
+        if isinstance(v, (dict, set)) and not v:   # containers
+            v = containers.retype_literal(self, st, v, fr)
         for t in st.targets:
             self.assign(t, v, fr)
 
@@ -1624,6 +1650,10 @@ class Path:
     def setitem(self, obj, k, v):
         if self.txns:
             raise MergeAbort()
+        if isinstance(obj, SymMap):   # containers
+            return containers.map_setitem(self, obj, k, v)
+        if self.loop_guard is not None:   # containers
+            containers.guard_concrete(self, obj)
         if isinstance(obj, list):
             if is_z3(k):
                 raise Unsupported('symbolic list store')
@@ -1785,6 +1815,8 @@ class Path:
 
     def ex_For(self, st, fr):
         it = self.ev(st.iter, fr)
+        if containers.is_symbolic_iterable(it):   # containers
+            return containers.loop_rule(self, st, fr, it)
         items = self.iterate(it)
         broke = False
         for item in items:
